@@ -26,7 +26,16 @@ def run(ctx):
         runs.monitor_batch(ctx, PID, ctx.size(250, 3000), force=FORCE),
         _r5s(ctx, ctx.size(150, 3000), 5),
         observed_twins(ctx, ctx.size(60, 800), 71),
+        # local searches that stop at once (plateau: zero gradient, no iterate recorded): they have run all the
+        # same, and the report must say so
+        refine.refine_batch(ctx, ctx.size(30, 300), salt=77, force=_plateau_local, pid=PID, name="trace-refinement(local leaves started on plateaus)"),
+        runs.monitor_batch(ctx, PID, ctx.size(40, 400), salt=79, name="traced-runs-monitor-C20(local leaves started on plateaus)", force=_plateau_local),
     ]
+
+
+def _plateau_local(rng):
+    return {"nlev": int(rng.choice([2, 2, 3])), "engines": {0: ["sea", "de", "shade", "ga"], 1: ["local", "local", "sea"], 2: ["local"]}, "objective": "plateau0",
+            "local_methods": ["L-BFGS-B", "BFGS", "CG", "L-BFGS-B"], "gsc": {"kind": "MetaepochLimit", "limit": int(rng.integers(3, 7))}}
 
 
 def _observed_worker(spec):
